@@ -41,7 +41,17 @@ def case_strategy(draw, ctx):
     if has_bloch:
         spec["bloch_phase"] = [draw(st.sampled_from([0.0, 0.9, -2.1, 3.0])) for _ in range(3)]
     interior = scenes.interior_range(sh, faces)
-    use_region = draw(st.integers(0, 3)) == 0 and min(sh) >= 7
+    # half of the full-tensor cases make the *background* fully anisotropic (every cell takes the tensor branch with its
+    # neighbour averages); plane / TFSF sources need isotropic faces, so those cases use dipoles only
+    full_bg = tier == "full" and draw(st.booleans())
+    if full_bg:
+        val = st.floats(1.0, 6.0, width=32).map(lambda x: round(x, 3))
+        which = draw(st.sampled_from(["eps", "eps", "mu", "both"]))
+        if which in ("eps", "both"):
+            spec["background"]["eps"] = scenes.spd_tensor(draw, val)
+        if which in ("mu", "both"):
+            spec["background"]["mu"] = scenes.spd_tensor(draw, val)
+    use_region = (not full_bg) and draw(st.integers(0, 3)) == 0 and min(sh) >= 7
     blocked = []  # (axis, lo, hi) index ranges that material boxes must avoid (source faces +- 1)
     if use_region:
         ax = draw(st.integers(0, 2))
@@ -58,7 +68,9 @@ def case_strategy(draw, ctx):
                                 "profile": draw(scenes.profile_strategy(wl)), "switch": draw(scenes.switch_strategy(T))})
         inner = [(lo[a] + 2, hi[a] - 2) for a in range(3)]
     for i in range(draw(st.integers(0, 2))):
-        s = draw(scenes.source_strategy(sh, T, faces, name=f"src{i}", interior=interior))
+        s = draw(scenes.source_strategy(sh, T, faces, name=f"src{i}", interior=interior,
+                                        kinds=("dipole_e", "dipole_m") if full_bg else
+                                        ("uniform_plane", "gaussian_plane", "dipole_e", "dipole_m")))
         spec["sources"].append(s)
         if s["type"] in ("uniform_plane", "gaussian_plane"):
             blocked.append((s["axis"], s["pos"] - 1, s["pos"] + 2))
@@ -128,6 +140,6 @@ def body(ctx, case):
 
 
 SUBS = [
-    Sub(name="roundtrip", body=body, strategy=lambda ctx: case_strategy(ctx), quick=24, thorough=3200,
+    Sub(name="roundtrip", body=body, strategy=lambda ctx: case_strategy(ctx), quick=40, thorough=3200,
         lanes=("f64", "f32"), f32_fraction=0.25, quick_shards=2, rule="backward(forward(s_t)) == s_t"),
 ]
